@@ -190,6 +190,7 @@ def sample_values(label, rng, n):
     if label in ('bytes', 'bytearray'):
         out = [b'', b'\x00', b'\xff', b'\xce', b'AMQP', bytes(range(8)), b'\x00' * 4, b'\xff' * 9]
         out += [bytes(rng.randrange(256) for _ in range(rng.randrange(0, 24))) for _ in range(n)]
+        out += [b'\xce' * 131064, b'a' * 131065, b'AMQP' * 32768, b'b' * 200000]   # around the maximum frame size
         return [bytearray(x) for x in out] if label == 'bytearray' else out
     if label == 'str':
         pool = ['', 'a', '0', 'ab c', 'é', '€uro', '\U0001F600', 'x' * 127, 'x' * 128, 'x' * 129, 'x' * 255,
